@@ -500,6 +500,11 @@ class PoisonMemo(dict):
         return PoisonMemo(None, self.rec)
 
 
+def _simloop() -> Any:
+    from harness.sim import simloop
+    return simloop
+
+
 def _fault_rule(match: dict, fakeapi: Any) -> Any:
     """HTTP 500 (or `status`) on every matching request from now on."""
     def rule(req: dict) -> Any:
@@ -508,6 +513,8 @@ def _fault_rule(match: dict, fakeapi: Any) -> Any:
         if "path_equals" in match and req["path"].rstrip("/") != match["path_equals"]:
             return None
         if "path_contains" in match and match["path_contains"] not in req["path"]:
+            return None
+        if "until" in match and _simloop().WALL.now_s() >= float(match["until"]):
             return None
         return fakeapi.Fault("status", int(match.get("status", 500)))
     return rule
@@ -829,6 +836,28 @@ def run_history(sc: dict, wall_limit: float = 30.0) -> dict:
                     c.remove_resource(kex)
                 elif kind == "crd_create":       # ... and created again
                     c.add_resource(kex)
+                elif kind == "watch_gone":
+                    # the served resource is GONE FOR A MOMENT for its watcher only (args: resource, seconds): its list/watch
+                    # requests are answered with HTTP 404 for that long, the running stream is cut — the watcher ends with
+                    # APINotFoundError (not a failure) while the resource stays in the insights: the next adjustment of the
+                    # ensemble (any revision) finds an exited task under a served key and starts a new one in its place
+                    c.fault_rules.append(_fault_rule({"method": "GET", "status": 404, "path_contains": kex.plural,
+                                                      "until": sim.now() + float(args[1])}, fakeapi))
+                    c.break_watches(kex, "eof")
+                elif kind == "ns_delete":        # a served NAMESPACE is deleted (its contents go first, as on a real API server) ...
+                    for key in [k_ for k_ in c.objects if k_[1] == args[0]]:
+                        c._remove(key)
+                    if c.get(fakeapi.NAMESPACES, None, args[0]) is not None:
+                        c._remove((fakeapi.NAMESPACES.key, None, args[0]))
+                elif kind == "ns_create":        # ... and created again under the same name: the same dimension of the ensemble
+                    if c.get(fakeapi.NAMESPACES, None, args[0]) is None:
+                        c.create_raw(fakeapi.NAMESPACES, None, args[0], {})
+                elif kind == "peering_crd_delete":   # the peering CRD (and its objects) are deleted: no peering resource any more ...
+                    c.remove_resource(fakeapi.CLUSTER_PEERING)
+                elif kind == "peering_crd_create":   # ... and installed again, with the peering object
+                    c.add_resource(fakeapi.CLUSTER_PEERING)
+                    if c.get(fakeapi.CLUSTER_PEERING, None, "default") is None:
+                        c.create_raw(fakeapi.CLUSTER_PEERING, None, "default", {})
                 elif kind == "mark":
                     pass
                 else:
